@@ -116,6 +116,7 @@ class World(object):
                 hdl_kwargs=dict(config=cfg_b, sock=self.sock_b, fromaddr=('10.0.0.1', 40000)),
                 bus_kwargs=dict(conn=object(), object_path='/b'))
         self.steps = 0
+        self.polling = set()
         self.log = []
         if start:
             self.a.start()
@@ -141,7 +142,8 @@ class World(object):
             if sides is not None and self.owner(src) not in sides:
                 continue
             if src.kind == 'idle':
-                out.append(src)
+                if sid not in self.polling:
+                    out.append(src)
             elif src.kind == 'io':
                 sock = src.chan
                 if src.cond & GLib.IO_IN:
@@ -158,7 +160,14 @@ class World(object):
     def dispatch(self, src):
         self.steps += 1
         self.log.append((self.owner(src), src.kind, getattr(src.func, '__name__', '?')))
-        return GLib.dispatch(src.sid)
+        r = GLib.dispatch(src.sid)
+        if src.kind == 'idle' and r:
+            # an idle callback that asks to be called again without having made progress is polling:
+            # it is not re-dispatched until some other source has run
+            self.polling.add(src.sid)
+        else:
+            self.polling.clear()
+        return r
 
     def run(self, max_steps, choose_budget=0, timers=False, until=None, sides=None):
         ''' Run enabled sources until quiescence.  Default order: lowest source id first;
